@@ -53,3 +53,32 @@ Example C08_positive_examples :
           [call1 "clz32" (EOp (OReg "R" "ss")); call1 "clz32" (EOp (OReg "R" "s")); call1 "clz64" (EOp (OReg "R" "ss"));
            call1 "revbit16" (EOp (OReg "R" "s")); call1 "clo32" (EOp (OReg "R" "s"))] = true.
 Proof. vm_compute. reflexivity. Qed.
+
+(* ------------------------------------------------------------------ argument passing, for ALL argument lists *)
+(* cast_sub_routine_args / build_arg_list (Lower.lower_args), repaired configuration: for every list of argument values the expression
+   theorem delivers (goodpv: what ExprCorrect.expr_inv returns for every expression of the fragment) and every list of integer
+   parameter types, the call is accepted, no temporary is introduced, and the k-th argument term evaluates, in every machine state, to the
+   C value of the k-th argument CONVERTED TO THE TYPE OF THE k-th PARAMETER (C11 6.5.2.2p7: as if by assignment) *)
+From RZ.proofs Require Import ExprCorrect.
+Theorem C08_arguments_converted_to_parameter_types :
+  forall (subsigs : list subsig) (macs : list macsig) (cret : option vtype) (hstart : N) (rw : regwidth) (R : list (string * reginfo))
+         (rem : list string) (ps : list pval) (pts : list vtype) (st : lstate),
+  Forall goodpv ps -> Forall int_ptype pts -> List.length ps = List.length pts ->
+  exists args, lower_args (mkcfg all_fixes subsigs macs [] cret hstart) (map IPure ps) pts st = OK ((args, []), st) /\
+    forall ms k p pt v, nth_error ps k = Some p -> nth_error pts k = Some pt -> sem rw R rem ms p v ->
+      exists t v', nth_error args k = Some (APure t) /\ eval rw ms [] (fin_pure R rem t) = Some v' /\ shape pt v' /\
+                   cval_of pt v' = conv (vt_sg pt, vt_w pt) (cval_of (pv_ty p) v).
+Proof. exact lower_args_ok. Qed.
+Print Assumptions C08_arguments_converted_to_parameter_types.
+(* the premises are satisfiable: two arguments (a 32 bit register value, a literal) passed to (int64_t, uint8_t) parameters *)
+Example C08_arguments_nonvacuous :
+  Forall int_ptype [ty_int true 64; ty_int false 8] /\
+  Forall goodpv [mkpv (PVarL "x") (ty_int true 32) (KVar "x") []; mkpv (PBv true 32 5) (ty_int true 32) KExec []].
+Proof.
+  assert (H8 : okw 8) by (unfold okw; tauto). assert (H32 : okw 32) by (unfold okw; tauto). assert (H64 : okw 64) by (unfold okw; tauto).
+  split.
+  - apply Forall_cons; [exists true, 64%N; split; [exact H64 | reflexivity]|].
+    apply Forall_cons; [exists false, 8%N; split; [exact H8 | reflexivity]|]. apply Forall_nil.
+  - apply Forall_cons; [right; exists true, 32%N; split; [exact H32|]; split; [reflexivity|]; split; [exact I | reflexivity]|].
+    apply Forall_cons; [right; exists true, 32%N; split; [exact H32|]; split; [reflexivity|]; split; [exact I | reflexivity]|]. apply Forall_nil.
+Qed.
